@@ -173,10 +173,10 @@ CHECKS["C26"] = ("model_checking",
     "Trusted: scripts without second-thread actions are their own reference (run twice; a difference must reproduce); the recorder wraps events.trigger.", "§6 C26", "notify")
 
 CHECKS["C18"] = ("model_checking",
-    "TLA+ CtxSelect spec (the five C18 predicates over accepted contexts, operation and result; a reference chooser) with MC_Ctx model-checked by TLC: the reference satisfies C18 on all 36610 cases "
+    "TLA+ CtxSelect spec (the five C18 predicates over accepted contexts, operation and result; a reference chooser) with MC_Ctx model-checked by TLC: the reference satisfies C18 on all 73220 cases "
     "(every set of at most two accepted contexts over 4 abstract syntaxes x 5 transfer syntaxes x 3 role pairs, 10 send operations); the cases are run through the public send_* API of a real Association "
     "with those contexts installed (S2C) and the captured context id and data-set encoding judged by the Trace_Ctx spec with the same predicates (C2S)",
-    "C-STORE of a data set that arrived in each of 5 transfer syntaxes, C-FIND, C-ECHO, N-EVENT-REPORT, N-CREATE for UPS Push (documented substitution), N-GET; 5000 cases in quick (3500 with a usable context), all 36610 in thorough: "
+    "C-STORE of a data set that arrived in each of 5 transfer syntaxes, C-FIND, C-ECHO, N-EVENT-REPORT, N-CREATE for UPS Push (documented substitution), N-GET; 5500 cases in quick (4000 with a usable context), all 73220 in thorough: "
     "context accepted, abstract syntax, role, encoding of the bytes actually sent (decoded under every transfer syntax), conversion only between uncompressed syntaxes of one byte order.",
     "Trusted: transport cut at dul.send_pdu (peer = pynetdicom's own decoder); data sets without pixel data. C-STORE sub-operations of C-GET use the same send_c_store path (acceptor-mode role flags are covered by the role pairs).", "§6 C18", "ctx")
 CHECKS["C29"] = ("model_checking",
